@@ -9,7 +9,7 @@ import (
 
 func init() { generators["C34"] = genC34 }
 
-func stringConst(f *ast.File, name string) string {
+func stringConstFs(f *ast.File, name string) string {
 	if e := constExpr(f, name); e != nil {
 		if bl, ok := e.(*ast.BasicLit); ok && bl.Kind == token.STRING {
 			if s, err := strconv.Unquote(bl.Value); err == nil {
@@ -155,9 +155,9 @@ func genC34(g *gen) {
 	kpf := parseFile("internal/identity/keypair.go")
 	slf := parseFile("internal/sleep/sleep.go")
 	g.line("Local Open Scope string_scope.")
-	g.line("Definition gen_id_file : string := %s.", coqString(stringConst(idf, "idFileName")))
-	g.line("Definition gen_key_file : string := %s.", coqString(stringConst(kpf, "keyFileName")))
-	g.line("Definition gen_pub_file : string := %s.", coqString(stringConst(kpf, "pubKeyFileName")))
+	g.line("Definition gen_id_file : string := %s.", coqString(stringConstFs(idf, "idFileName")))
+	g.line("Definition gen_key_file : string := %s.", coqString(stringConstFs(kpf, "keyFileName")))
+	g.line("Definition gen_pub_file : string := %s.", coqString(stringConstFs(kpf, "pubKeyFileName")))
 	// sleep state file name: the literal joined with dataDir in NewManager
 	sleepName := ""
 	if fd := findFunc(slf, "", "NewManager"); fd != nil {
